@@ -11,7 +11,7 @@ TRUST = ("trusted: native models of core/heapless helpers listed in the evidence
 CHECKS = {
  'C02': dict(text="bounded: Interface::run executed symbolically from MIR (run -> parse -> execute -> macro-generated execute_command) on every message of 1..3 units over device T1 with every mnemonic letter symbolic, followed by a probe message, plus every message of 1..2 (3) units out of a 31-header library on device T3 (short/long forms, optional nodes, standard commands); handler log compared with an independent SCPI path resolver per leaf; the same rule through process::<16> on streams of 1..2 library messages (relative second message, message continued after a payload newline) in whole / byte-wise / one- and two-cut schedules",
              note=TRUST + "handlers are recording stubs returning Ok", design="DESIGN.md section 5 C02"),
- 'C12': dict(text="bounded: parser::parse executed symbolically from MIR on every byte string (all 256 values per byte) up to the stated length, from the root and inner start nodes of two macro-built trees; obligations O1-O5 decided by z3 per leaf; nothing claimed beyond the length bound",
+ 'C12': dict(text="bounded: parser::parse executed symbolically from MIR on every byte string (all 256 values per byte) up to the stated length, from the root and inner start nodes of two macro-built trees; obligations O1-O5 decided by z3 per leaf (O4 / O5 extended by a fixed completion family, also behind payload and length-field prefixes); nothing claimed beyond the length bound and that family",
              note=TRUST + "no stubs for parse", design="DESIGN.md section 5 C12"),
 }
 NA = {}
